@@ -83,6 +83,30 @@ reader SORTS the steps).  Two classes:
       failure is reported.  Branch of Wea.from_dict newly counted: steps-do-not-fill-spanned-period (fallback to
       the annual period).  New recorded finding C07-wea-dict-rederives-period (the dictionary carries no header
       period; genuine, same root as the validated-flag finding).
+
+Round 6 (seeded C07-17, missed: collections_to_csv wrote every column's metadata under the keys of the FIRST collection).
+  (m) CROSS-TALK BETWEEN THE MEMBERS OF ONE SERIES: a writer (or reader) of several objects into one file computes a
+      member's form with something taken from a sibling (the first member's keys / layout / data type / unit / year
+      kind), usually through a new optional argument whose default keeps the single-object form intact.  Each object
+      alone is right; a file that two objects share is wrong.  The old pair stratum gave the second member the SAME
+      data type and unit, a random metadata size, and left most non-continuous pairs inside the csv_unvalidated
+      limitation.  Now (`_round6_cases`, counters `stratum:series_*`): series of 2-4 aligned collections of every class
+      (twins mixed) in ONE csv / json / pkl file whose members differ in exactly one respect a writer could share -
+      metadata of the same size (2-4 items: the one-item-per-row layout) with other keys, with the same keys in another
+      order, with the same keys and other values; sizes that differ (one-row layout); empty / missing metadata next to
+      filled; other data type and unit; the odd member first, in the middle, last - all outside every recorded
+      limitation.  Oracle clauses added to the file ops: every member reads back equal to ITSELF (sig `member`, `series`),
+      equal to what it reads back to when written ALONE (sig outcome `depends_on_siblings`), and the writer leaves
+      the members as they were (`writer_changed_member`).  Correspondence `csv_series`: the header block of the real file
+      (layout flag, one column per member) against the model's csvColumns / Hdr.csvSeries, the headers read back by
+      collections_from_csv against the model's.  Lean: csvLayout / csvColumns (Model/Serial/Csv.lean),
+      C07_csv_column_is_members_own (a column depends on its own header and the layout flag only),
+      C07_csv_series_partial (every column of a series reads back to its own header, token level).
+      NEW GENUINE DEFECT of the pinned tree found by the stratum `other_period`: the CSV file has ONE cell for the
+      analysis period (the first member's); an aligned member (same class, same datetimes) of a non-continuous class
+      whose header names another period reads back with the first member's period.  Recorded finding
+      C07-csv-one-period-per-file (root `csv_shared_period`, excuses `lost: period` of a later member only), modelled as
+      the code is (Hdr.csvSeries), theorem C07_csv_series_period_counterexample.
 """
 import contextlib
 import copy
@@ -147,6 +171,9 @@ TRUSTED_BASE = [
     'categorized parameters, continuous non-annual Wea objects (law proved for annual and discontinuous ones), '
     'EPW, PsychrometricChart and the CSV/PKL *file* forms are compared / oracle-checked only, not proved',
     'len(AnalysisPeriod) and its datetimes in the Wea codec come from the C04 model (Model/AP.lean)',
+    'the CSV file of a series: the model has the header block as one column per member (csvLayout / csvColumns / '
+    'Hdr.csvSeries); the transposition zip(*columns) / zip(*rows), the value and datetime cells and the text of the '
+    'period cell are compared (correspondence csv_series, oracle op csv), not modelled',
     'object state machines (Model/Serial/Hist.lean) exist for Location and the data collections; their setters '
     'validate before assigning (for Location that is the behaviour of fixes/C07_location_setters_refused_assignment'
     '.patch; on the pinned code a refused assignment that changed the object ends the step-wise comparison of that '
@@ -157,7 +184,7 @@ TRUSTED_BASE = [
 ]
 ASSUMPTIONS = ['object equality is the class\'s own __eq__ where defined; ColorRange, EPW and '
                'PsychrometricChart define none and are compared through their dictionaries']
-LEVEL_TEXT = ('Machine-checked Lean 4 theorems (54) over a codec model of the serial forms: json.loads(json.dumps) '
+LEVEL_TEXT = ('Machine-checked Lean 4 theorems (58) over a codec model of the serial forms: json.loads(json.dumps) '
               'modelled as jsonRT (tuples to lists, integer keys to text); the round-trip law '
               'dec(jsonRT(enc a)) = a is proved for every well-formed DateTime, Date, Time, AnalysisPeriod '
               '(incl. duplicate and token-level text), Location, Color, standard and generic DataType, Header, '
@@ -166,7 +193,7 @@ LEVEL_TEXT = ('Machine-checked Lean 4 theorems (54) over a codec model of the se
               'annual Wea; with the to_dict fixed point and, once for all record decoders, independence of key '
               'order and of unknown keys; the CSV header strings at token level under the stated guard.  '
               'Recorded findings have counterexample theorems (data-type naming, categorized default names, '
-              'discontinuous Wea flag, CSV separators, generic-type text).  Histories on one object: Location and '
+              'discontinuous Wea flag, CSV separators, one analysis period per CSV file, generic-type text).  Histories on one object: Location and '
               'the data collections are object state machines over their public state; for every history of accepted '
               'and refused assignments and reads the object still reads back / copies equal to itself and answers as a '
               'fresh object built from its public state, a refused operation changes nothing, reads are pure '
@@ -728,6 +755,8 @@ def root_of(op, inp):
             devs.add('csv_meta_separator')
     if op == 'csv' and spec['kind'] != 'HourlyContinuous' and not spec.get('validated'):
         devs.add('csv_unvalidated')
+    if op == 'csv' and any(m['header']['ap']['args'] != spec['header']['ap']['args'] for m in inp.get('more', [])):
+        devs.add('csv_shared_period')       # round 6: the file has ONE cell for the analysis period (the first member's)
     for m in inp.get('more', []):
         r = root_of(op, {'spec': m})
         if r != 'none':
@@ -891,6 +920,7 @@ def _check_plain(op, inp):
         tmp = tempfile.mkdtemp(prefix='c07_')
         try:
             xs = [x] + [build(s) for s in inp.get('more', [])]
+            before = [jdump(a.to_dict()) for a in xs]
             kind = {'csv': 'csv', 'json_file': 'json', 'pkl': 'pkl'}[op]
             extra = {}
             if op == 'csv':
@@ -931,9 +961,29 @@ def _check_plain(op, inp):
                             outcome='raises', **extra)
             if len(back) != len(xs):
                 return fail(op, len(xs), len(back), outcome='count', **extra)
-            for a, b in zip(xs, back):
+            if inp.get('series'):
+                extra['series'] = inp['series']
+            shared_period = root_of(op, inp) == 'csv_shared_period'
+            explained = []
+            for i_m, (a, b) in enumerate(zip(xs, back)):
+                if len(xs) > 1:
+                    extra['member'] = 'first' if i_m == 0 else 'later'
                 # file readers build mutable collections: compare with the mutable form
                 a2 = a.to_mutable() if not a.is_mutable else a
+                if shared_period and type(a2) is type(b) and a2 != b:
+                    # recorded limitation C07-csv-one-period-per-file excuses the header PERIOD of a later member
+                    # (read back as the first member's) and nothing else
+                    ha, hb = a2.header, b.header
+                    only_period = (ha.data_type == hb.data_type and ha.unit == hb.unit and ha.metadata == hb.metadata and
+                                   hb.analysis_period == xs[0].header.analysis_period and
+                                   a2.values == b.values and a2.datetimes == b.datetimes and
+                                   a2.validated_a_period == b.validated_a_period)
+                    r_ = fail(op, _describe(a2), _describe(b), outcome='header',
+                              lost='period' if only_period else 'content', **extra)
+                    if only_period and i_m > 0:
+                        explained.append(r_)
+                        continue
+                    return r_
                 if not (type(a2) is type(b) and a2 == b):
                     what = 'unequal'
                     if a2.header != b.header:
@@ -945,6 +995,26 @@ def _check_plain(op, inp):
                     elif a2.validated_a_period != b.validated_a_period:
                         what = 'validated'
                     return fail(op, _describe(a2), _describe(b), outcome=what, **extra)
+            if explained:
+                return explained[0]
+            if len(xs) > 1:
+                # round 6: the writer leaves the members as they were, and a member's place in a shared file
+                # changes nothing: it reads back to what it reads back to from a file of its own
+                for i_m, (d0, a) in enumerate(zip(before, xs)):
+                    if jdump(a.to_dict()) != d0:
+                        return fail(op, d0[:400], jdump(a.to_dict())[:400], outcome='writer_changed_member',
+                                    **dict(extra, member='first' if i_m == 0 else 'later'))
+                for i_m, (s_, b) in enumerate(zip([spec] + list(inp.get('more', [])), back)):
+                    try:
+                        p1 = getattr(du, 'collections_to_' + kind)([build(s_)], tmp, 'alone_%d' % i_m)
+                        alone = getattr(du, 'collections_from_' + kind)(p1)
+                    except Exception as e:
+                        return fail(op, _describe(b), 'alone: raises %s: %s' % (type(e).__name__, str(e)[:200]),
+                                    outcome='raises', **dict(extra, member='alone'))
+                    if len(alone) != 1 or jdump(alone[0].to_dict()) != jdump(b.to_dict()):
+                        return fail(op, 'alone in a file: ' + (_describe(alone[0]) if alone else 'nothing'),
+                                    'in the shared file: ' + _describe(b), outcome='depends_on_siblings',
+                                    **dict(extra, member='first' if i_m == 0 else 'later'))
             return None
         finally:
             shutil.rmtree(tmp, ignore_errors=True)
@@ -2587,11 +2657,115 @@ def _round5_cases(ctx, rng, k):
             yield op, {'spec': spec, 'seed': rng.randrange(10 ** 6)}
 
 
+_SERIES_META_POOL = [('source', 'TMY3'), ('city', 'Boston'), ('Zone', 'LIVING ROOM'), ('type', 'Zone Air Temperature'),
+                     ('System', 'VAV_1'), ('Surface', 'ROOF 2'), ('run', 'annual'), ('case', 'B-7'), ('floor', '3')]
+SERIES_STRATA = ('same_size_other_keys', 'same_keys_other_order', 'same_keys_other_values', 'sizes_differ',
+                 'empty_next_to_filled', 'other_type_and_unit', 'overlapping_keys', 'other_period')
+
+
+def gen_series(rng, how, kind=None, n=None):
+    """Round 6: a series of 2-4 ALIGNED collections for one file whose members differ in one respect that a
+    writer of the whole file could share between them (`how`, see SERIES_STRATA).  Plain data; every member
+    is validated, has a default-named standard data type and text metadata without separators - outside
+    every recorded limitation.  The odd member's place (first / middle / last) is random."""
+    n = n or rng.choice([2, 2, 3, 4])
+    base = gen_collection(rng, kind, rng.random() < 0.3, meta_kind='strings', generic=False)
+    base['header']['dt']['name'] = None
+    if 'validated' in base:
+        base['validated'] = True
+    m = rng.choice([2, 2, 3, 4])
+    pool = list(_SERIES_META_POOL)
+    rng.shuffle(pool)
+    first = pool[:m]
+    metas = []
+    for i in range(n):
+        if how == 'same_size_other_keys':
+            metas.append(dict(first) if i == 0 else dict(rng.sample(pool[m:] + first[:1], m)
+                                                         if rng.random() < 0.5 else pool[i:i + m]))
+        elif how == 'overlapping_keys':           # one key in common, under another value
+            metas.append(dict(first) if i == 0 else dict([(first[0][0], 'v%d' % i)] + pool[m + i:m + i + m - 1]))
+        elif how == 'same_keys_other_order':
+            ks = list(first)
+            if i:
+                ks = ks[1:] + ks[:1] if m == 2 or rng.random() < 0.5 else rng.sample(ks, m)
+            metas.append(dict((k_, '%s %d' % (v_, i)) for k_, v_ in ks))
+        elif how == 'same_keys_other_values':
+            metas.append(dict((k_, v_ if i == 0 else '%s-%d' % (v_, i)) for k_, v_ in first))
+        elif how == 'sizes_differ':
+            metas.append(dict(pool[:(m + i) % 5 + 1]) if i else dict(first))
+        elif how == 'empty_next_to_filled':
+            metas.append(rng.choice([None, {}]) if i == 0 else dict(pool[:rng.choice([1, 2, 3])]))
+        else:
+            metas.append(dict(first))
+    order = list(range(n))
+    if rng.random() < 0.6:                        # the member that set the pattern is not always the first
+        rng.shuffle(order)
+    members = []
+    for j, i in enumerate(order):
+        c = copy.deepcopy(base)
+        c['values'] = gen_values(rng, len(base['values']))
+        c['immutable'] = rng.random() < 0.3
+        c['header']['meta'] = metas[i]
+        if how == 'other_period' and j and base['kind'] != 'HourlyContinuous':
+            # aligned = same class, same datetimes: the header period of a discontinuous / daily / monthly
+            # collection is free (same step and year kind here; the whole year holds every datetime)
+            a0 = base['header']['ap']['args']
+            whole = [1, 1, 0, 12, 31, 23, a0[6], a0[7]]
+            c['header']['ap'] = {'cls': 'AnalysisPeriod',
+                                 'args': whole if a0 != whole else [1, 1, 0, rng.randrange(1, 12), 28, 23, a0[6], a0[7]]}
+        if how == 'other_type_and_unit' and j:
+            # one respect at a time: another data type under the SAME unit, the same data type under another
+            # unit, or both other
+            u0, t0 = base['header']['unit'], base['header']['dt']['type']
+            same_unit = [t for t in sorted(_types()) if t != t0 and u0 in _types()[t]._units]
+            other_units = [u for u in _types()[t0]._units if u != u0]
+            mode = rng.choice(['type', 'type', 'unit', 'both'])
+            if mode == 'type' and same_unit:
+                c['header']['dt'] = {'cls': 'DataType', 'type': rng.choice(same_unit), 'name': None}
+            elif mode == 'unit' and other_units:
+                c['header']['unit'] = rng.choice(other_units)
+            else:
+                dt = {'cls': 'DataType', 'type': rng.choice(sorted(_types())), 'name': None}
+                c['header']['dt'] = dt
+                c['header']['unit'] = rng.choice(_units_of(dt))
+        members.append(c)
+    return members
+
+
+def _round6_cases(ctx, rng, k):
+    """Round 6 (seeded C07-17): cross-talk between the members of one series in ONE file."""
+    kinds = sorted(COLL_CLASSES)
+    for r in range(k):
+        for j, how in enumerate(SERIES_STRATA):
+            for op in ('csv', 'json_file', 'pkl'):
+                if op != 'csv' and r == 0 and how not in ('same_size_other_keys', 'other_type_and_unit',
+                                                           'empty_next_to_filled') and ctx.quick and not ctx.searching:
+                    continue                      # (the json / pkl writers have no shared layout: fewer in the quick tier)
+                for _ in range(2 if op == 'csv' else 1):
+                    kind = kinds[(j + r + rng.randrange(len(kinds))) % len(kinds)]
+                    if how == 'other_period' and kind == 'HourlyContinuous':
+                        kind = rng.choice(['Daily', 'Monthly', 'MonthlyPerHour', 'HourlyDiscontinuous'])
+                    ms = gen_series(rng, how, kind)
+                    inp = {'spec': ms[0], 'more': ms[1:], 'series': how, 'seed': 0}
+                    if root_of(op, inp) not in ('none', 'csv_shared_period'):
+                        ctx.count('series_in_known_limitation_skipped')
+                        continue
+                    ctx.count('stratum:series_%s:%s' % (how, op))
+                    ctx.count('series_members:%d' % len(ms))
+                    if op == 'csv':
+                        sizes = set(len(m_['header']['meta'] or {}) for m_ in ms)
+                        ctx.count('branch:collections_to_csv:' + ('one-row' if len(sizes) > 1 or sizes == {1}
+                                                                  else 'per-row' if sizes != {0} else 'no-metadata'))
+                    yield op, inp
+
+
 def _oracle_cases(ctx):
     rng = ctx.rng
     for op, inp in CORPUS + _finding_examples():
         yield op, inp
     for x in _round5_cases(ctx, rng, 5 if (ctx.searching or not ctx.quick) else 1):
+        yield x
+    for x in _round6_cases(ctx, rng, 6 if (ctx.searching or not ctx.quick) else 2):
         yield x
     big = ctx.searching or not ctx.quick
     k = 5 if big else 1
@@ -3681,6 +3855,7 @@ def _correspondence(ctx):
             _model_rt(ctx, 'rtmut_' + tag, tag, muts, reader)
 
     _file_correspondence(ctx, L, rng, n)
+    _csv_series_correspondence(ctx, L, rng, n)
     _hist_correspondence(ctx, L, rng, n)
 
 
@@ -3725,6 +3900,60 @@ def _file_correspondence(ctx, L, rng, n):
                     elif form == 'json':
                         dicts += got
             _model_rt(ctx, 'rt_file_' + kind, kind, dicts, du._dict_to_collection)
+    finally:
+        shutil.rmtree(tmp, ignore_errors=True)
+
+
+def _csv_series_correspondence(ctx, L, rng, n):
+    """Round 6: the header block of ONE CSV file that several collections share (Model/Serial/Csv.lean:
+    csvLayout / csvColumns / Hdr.csvSeries; theorems C07_csv_column_is_members_own, C07_csv_series_partial).
+    The model computes the layout flag from the metadata sizes of the members and reads every member's own
+    column back; the real side writes the series with collections_to_csv, takes the layout from the number of
+    header rows of the file and the headers from collections_from_csv."""
+    du = L['du']
+    tmp = tempfile.mkdtemp(prefix='c07s_')
+    cases = []
+    for r in range(4 * n):
+        for how in SERIES_STRATA:
+            ms = gen_series(rng, how)
+            if rng.random() < 0.2:               # values that are not text are written with str(): read back as text
+                for m_ in ms:
+                    if m_['header']['meta']:
+                        k0 = sorted(m_['header']['meta'])[0]
+                        m_['header']['meta'][k0] = rng.choice([7, True, None, -3])
+            ctx.count('csv_series:' + how)
+            cases.append({'series': how, 'members': ms})
+    live = []
+    for c in cases:
+        try:
+            c['dicts'] = [json.loads(json.dumps(build(m_['header']).to_dict())) for m_ in c['members']]
+            live.append(c)
+        except Exception:
+            ctx.count('spec_not_constructible')
+
+    def impl(c):
+        xs = [build(m_) for m_ in c['members']]
+        path = du.collections_to_csv(xs, tmp, 's')
+        with open(path) as f:
+            rows = [ln.rstrip('\n').split(',') for ln in f]
+        n_head = next(i for i, row in enumerate(rows) if row[0] in COLL_CLASSES) + 2
+        back = du.collections_from_csv(path)
+        return 'ok ' + wire([n_head != 3, [b.header.to_dict() for b in back]])
+
+    def cn(line):
+        if line == 'skip':
+            return 'skip'
+        if line.startswith('ok '):
+            try:
+                v = unwire(line[3:].split(' '))[0]
+                if any(h is None for h in v[1][1][1]):
+                    return 'err:'                # a column that does not read back: the reader raises
+            except Exception:
+                pass
+        return canon_line(line)
+    try:
+        core.compare_batch(ctx, 'csv_series', live, lambda c: 'csv_series ' + wire(c['dicts']), impl, canon=cn,
+                           key=lambda c: jdump(c['dicts']))
     finally:
         shutil.rmtree(tmp, ignore_errors=True)
 
